@@ -123,43 +123,47 @@ Definition cinit (c : ccfg) : cst :=
   mkcs (repeat (false, -1000000) (nsw c)) 0 false false [] 0 0 0 0.
 
 (* ---------------------------------------------------------------------------------------------- *)
-(* entrance switch counter (ball_capacity k, one entrance switch, no entrance_switch_full_timeout) *)
+(* entrance switch counter (ball_capacity k, any number of entrance switches + the entrance event, no
+   entrance_switch_full_timeout).  The ignore window (entrance_switch_ignore_window_ms) is kept PER ENTRANCE NAME
+   (recycle_clear_time[switch_name]; "event" is a name of its own): a ball rattling on one entrance switch is one ball,
+   a ball coming in through another entrance is another ball. *)
 Record ecfg := mke { e_cap : Z; e_ignore : Z (* entrance_switch_ignore_window_ms *) }.
-Record est := mkes { e_last : Z; e_until : Z (* hits before this time are ignored *); e_nent : Z }.
+Record est := mkes { e_last : Z;                (* _last_count *)
+                     e_win : list (Z * Z);      (* entrance name -> hits before this time are ignored (newest first) *)
+                     e_nent : Z }.              (* BallEntranceActivity recorded so far *)
 
+Definition EVENT_NAME : Z := -1.
 Inductive eev :=
-| EHit (t : Z)        (* entrance switch active at t *)
+| EHit (t k : Z)      (* entrance switch k (0, 1, ..) active at t *)
 | EEvent (t : Z).     (* entrance event at t (received_entrance_event -> _entrance_switch_handler("event")) *)
+Definition ename (e : eev) : Z := match e with EHit _ k => k | EEvent _ => EVENT_NAME end.
+Definition etime (e : eev) : Z := match e with EHit t _ => t | EEvent t => t end.
 
-(* the ignore window is kept per switch NAME; "event" is a name of its own *)
-Record est2 := mkes2 { e2 : est; e_until_ev : Z }.
+Fixpoint wlook (k : Z) (w : list (Z * Z)) : option Z :=
+  match w with [] => None | (k', u) :: w' => if k' =? k then Some u else wlook k w' end.
+Definition in_window (w : list (Z * Z)) (k t : Z) : bool :=
+  match wlook k w with Some u => t <? u | None => false end.
 
-Definition ehit (c : ecfg) (s : est) (t : Z) : est :=
-  if t <? e_until s then s
+(* _entrance_switch_handler(switch_name = k) at time t *)
+Definition ehit (c : ecfg) (s : est) (t k : Z) : est :=
+  if in_window (e_win s) k t then s
   else
-    let u := if 0 <? e_ignore c then t + e_ignore c else e_until s in
-    if e_cap c <=? e_last s then mkes (e_last s) u (e_nent s)          (* "Device received balls but is already full!" *)
-    else mkes (e_last s + 1) u (e_nent s + 1).
+    let w := if 0 <? e_ignore c then (k, t + e_ignore c) :: e_win s else e_win s in
+    if e_cap c <=? e_last s then mkes (e_last s) w (e_nent s)          (* "Device received balls but is already full!" *)
+    else mkes (e_last s + 1) w (e_nent s + 1).
 
-Definition estep (c : ecfg) (s : est2) (e : eev) : est2 :=
-  match e with
-  | EHit t => mkes2 (ehit c (e2 s) t) (e_until_ev s)
-  | EEvent t =>
-      (* same handler, separate ignore window *)
-      let s' := ehit c (mkes (e_last (e2 s)) (e_until_ev s) (e_nent (e2 s))) t in
-      mkes2 (mkes (e_last s') (e_until (e2 s)) (e_nent s')) (e_until s')
-  end.
+Definition estep (c : ecfg) (s : est) (e : eev) : est := ehit c s (etime e) (ename e).
 
-Fixpoint erun (c : ecfg) (s : est2) (l : list eev) : est2 :=
+Fixpoint erun (c : ecfg) (s : est) (l : list eev) : est :=
   match l with [] => s | e :: l' => erun c (estep c s e) l' end.
 
-Fixpoint etrace (c : ecfg) (s : est2) (l : list eev) : list (list Z) :=
+Fixpoint etrace (c : ecfg) (s : est) (l : list eev) : list (list Z) :=
   match l with
   | [] => []
-  | e :: l' => let s' := estep c s e in [e_last (e2 s'); e_nent (e2 s')] :: etrace c s' l'
+  | e :: l' => let s' := estep c s e in [e_last s'; e_nent s'] :: etrace c s' l'
   end.
 
-Definition einit : est2 := mkes2 (mkes 0 (-1000000) 0) (-1000000).
+Definition einit : est := mkes 0 [] 0.
 
 (* ---------------------------------------------------------------------------------------------- *)
 (* correspondence entry points *)
